@@ -50,7 +50,19 @@ def rand_terms(rng, vs, kind, n):
         t = rng.choice(ts)
         mode = rng.choice(["eq", "abs", "unrelated"])
         c = {"eq": -t[1], "abs": t[1], "unrelated": rand_num(rng, kind)}[mode]
-        ts.insert(rng.randint(0, len(ts)), ({v: -a for v, a in t[0].items()}, c))
+        lin = {v: -a for v, a in t[0].items()}
+        # look-alikes that must NOT be folded: a partner over more / fewer variables, or with one coefficient off
+        shape = rng.choice(["exact", "exact", "superset", "subset", "one_coeff"])
+        free = [v for v in vs if v not in lin]
+        if shape == "superset" and free:
+            lin[rng.choice(free)] = rand_num(rng, kind)
+        elif shape == "subset" and len(lin) >= 2:
+            lin.pop(rng.choice(list(lin)))
+        elif shape == "one_coeff":
+            v0 = rng.choice(list(lin))
+            lin[v0] = lin[v0] * 2
+        pos = rng.randint(0, len(ts))
+        ts.insert(pos, (lin, c))
     return ts
 
 
